@@ -6,7 +6,7 @@ import Mathlib.LinearAlgebra.Matrix.NonsingularInverse
 import Mathlib.Algebra.Field.Rat
 import GT.Model.Rep
 
-namespace GT
+namespace GT.RepW
 open Matrix
 
 /-- the contract of `utils.invert` (`numpy.linalg.inv`): what it returns is an inverse -/
@@ -56,11 +56,11 @@ theorem invertZG_ok : InvertOK (invertZG (n := n)) := by
     exact hd
 
 end Rep
-end GT
+end GT.RepW
 
 /-! ## word evaluation at the `Matrix` level -/
 
-namespace GT
+namespace GT.RepW
 namespace Rep
 variable {n : ℕ} {R : Type} [Inhabited R] [CommRing R]
 
@@ -174,4 +174,4 @@ def Coherent (ρ : Rep n R) : Prop :=
   ∀ g A, ρ.genM g = .ok A → ∃ B, ρ.genM (ρ.inv g) = .ok B ∧ A * B = 1 ∧ B * A = 1
 
 end Rep
-end GT
+end GT.RepW
